@@ -226,6 +226,8 @@ def generate(rng, tier):
     # the Edgebreaker decoder model driven through every branch on purpose (standard / valence traversal, split
     # events, holes, seams, all mesh prediction schemes); reached branches show as eb:* in input_distribution
     cases += ebcases.cases(rng, tier)
+    # every tiny mesh / stacks of small closed components through the Edgebreaker encoder and decoder (header checks)
+    cases += ebcases.tiny_mesh_cases(rng, tier)
     # Edgebreaker ENCODER model vs the real encoder, byte for byte (choices read back: symbol schemes, crease flags)
     cases += ebenc_cases.cases(rng, tier)
     # kd-tree: every level 0..6, dimensions 1..20, all integer types at their limits, 1..30 bit quantization, and the
